@@ -254,7 +254,7 @@ def run(ctx):
                 argv, sel = ["-R", "-f", p, "-n", nm.decode()], "n:%s" % hexb(nm)
             rc, out, err = core.run_cmd([os.path.join(d, "robsd-step")] + argv, stdin=tm, env=env, timeout=20)
             # the model's line splitting is quadratic in the line length: the very long tokens are judged on the real helper only
-            if judge("robsd-step -R", argv, rc, out, err, tm, {"step.csv": f}) and argv[3] == "-i" and argv[4] != "0" and b"\0" not in tm and len(f) + len(tm) <= ctx.n(12000, 80000):
+            if judge("robsd-step -R", argv, rc, out, err, tm, {"step.csv": f}) and argv[3] == "-i" and argv[4] != "0" and b"\0" not in tm and len(f) + len(tm) <= ctx.n(12000, 20000):
                 reqs.append("step read %s %s %s" % (hexb(f), sel, hexb(tm)))
                 wants.append("%d %s" % (rc, hexb(out)))
                 infos.append(dict(argv=argv, file=hexb(f), template=hexb(tm)))
@@ -287,7 +287,7 @@ def run(ctx):
             flags = rng.randint(1, 15)
             opt = "-" + "".join(ch for b, ch in ((1, "F"), (2, "S"), (4, "X"), (8, "P")) if flags & b)
             rc, out, err = core.run_cmd([os.path.join(d, "robsd-regress-log"), opt] + argvf, env=env, timeout=20)
-            if judge("robsd-regress-log", [opt], rc, out, err, b"", files, allowed=(0, 1, 2)) and sum(len(v) for v in files.values()) <= ctx.n(12000, 80000):
+            if judge("robsd-regress-log", [opt], rc, out, err, b"", files, allowed=(0, 1, 2)) and sum(len(v) for v in files.values()) <= ctx.n(12000, 20000):
                 reqs.append("rlog main %d 1 %s" % (flags, " ".join(hexb(files[k]) for k in sorted(files))))
                 wants.append("%d %s" % (rc, hexb(out)))
                 infos.append(dict(opt=opt, files={k: hexb(v) for k, v in files.items()}))
